@@ -275,12 +275,12 @@ theorem stepR_seq (C : Cfg) (src : Array UInt8) (ok : CfgOK C src) (hn : 13 ≤ 
           rw [h64]; omega
         obtain ⟨s1, s2, s3, s4, s5, s6⟩ := searchR_spec C src ok _ (by rw [c1]; omega) _ _ _ _ _ ip m tbl hs i3 (Nat.le_refl 1) hnb
         rw [c1] at s2
-        obtain ⟨d, d1, d2, d3, d4⟩ := catchUp_spec src st.anchor src.size ip m 4 (by omega) s3 (eq4_spec src ip m (by
+        obtain ⟨d, d1, d2, d3, d4⟩ := catchUpL_spec src st.anchor (C.low m) src.size ip m 4 (by omega) s3 (eq4_spec src ip m (by
           unfold eq4 at s5 ⊢
           simp only [Bool.and_eq_true, beq_iff_eq] at s5 ⊢
           obtain ⟨⟨⟨q0, q1⟩, q2⟩, q3⟩ := s5
           exact ⟨⟨⟨q0.symm, q1.symm⟩, q2.symm⟩, q3.symm⟩))
-        generalize hc : catchUp src st.anchor src.size ip m = c at h d1 d2 d3 d4
+        generalize hc : catchUpL src st.anchor (C.low m) src.size ip m = c at h d1 d2 d3 d4
         split at h
         · cases h
         · exact emitMatchR_spec C src ok _ c.1 c.2 _ st.anchor (c.1 - st.anchor) s st' h (by omega) (by omega)
